@@ -103,8 +103,34 @@ def shifted(rng, case):
     return case
 
 
+def gen_bigcoef(rng):
+    """Small programs (3-4 bounded integer variables) whose integer data are in the hundreds or thousands: the simplex
+    tableau is unscaled, so absolute tolerances meet entries of very different magnitudes."""
+    n = rng.randrange(3, 5)
+    hi = rng.choice([200, 200, 900, 3000])
+    ub = [rng.choice([1, 1, 2, 4]) for _ in range(n)]
+    A, b = [], []
+    for _ in range(rng.randrange(2, 8)):
+        row = [rng.choice([0, rng.randrange(-hi, hi + 1), rng.randrange(-hi, hi + 1)]) for _ in range(n)]
+        if any(row):
+            A.append(row)
+            lo_v = sum(min(0, a * u) for a, u in zip(row, ub))
+            hi_v = sum(max(0, a * u) for a, u in zip(row, ub))
+            b.append(rng.randrange(lo_v, hi_v + 1) if rng.random() < 0.8 else 0)
+    for j in range(n):
+        A.append([1 if k == j else 0 for k in range(n)])
+        b.append(ub[j])
+    cfgs = _configs(rng, 2)
+    for c in cfgs:
+        c["max_nodes"] = 2000  # keeps a program whose node LPs repeat themselves from running for minutes
+    return {"family": "bigcoef", "seq_as": "list", "c": [rng.randrange(-hi, hi + 1) for _ in range(n)], "A": A, "b": b,
+            "integers": list(range(n)), "minimize": rng.random() < 0.5, "ub": ub, "free_var": None, "configs": cfgs}
+
+
 def generate(rng, tier):
     y = rng.random()
+    if 0.5 < y < 0.56:
+        return gen_bigcoef(rng)
     if y < 0.0008:
         return gen_subset_sum(rng)
     if y < (0.08 if tier == "quick" else 0.2):
@@ -364,6 +390,8 @@ def run_cfg(case, cfg, ref):
 
 def judge(case, cfg, res, exc, exceeded, ref, o: Outcome, label):
     feats = dict(target="solve_milp", lns=cfg["lns_iterations"] > 0, kind=("unbounded" if case["free_var"] is not None else "boxed"))
+    if case.get("family") == "bigcoef":
+        feats["data"] = "hundreds+"
     if exceeded:
         # the statement is about what solve_milp returns; on these <=5-variable programs the legitimate work is below 0.2 M
         # events (measured), so 6 M events without returning means no result will be delivered
@@ -473,7 +501,7 @@ def shrink(case):
                 c["integers"] = list(range(n - 1))
                 yield c
         return
-    if case.get("family") in ("shifted", "degenerate"):
+    if case.get("family") in ("shifted", "degenerate", "bigcoef"):
         for i in range(len(case["A"]) - 1, -1, -1):
             row = case["A"][i]
             if case.get("family") == "degenerate" and i == len(case["A"]) - 1:
